@@ -37,6 +37,10 @@ def run(ctx):
     ctx.rule("R3", "shape of the convergence test and identity of eps")
     ctx.rule("R4", "the iteration cap is real: positive literal bounding every driver's loop, flag returned after exhaustion")
     ctx.rule("R5", "the unrolled (backward=True) arm of every density update computes the same new density as the in-place arm")
+    ctx.rule("R6", "the density builders pack / diagonalise / occupy every molecule with its own sizes (representative-row rule, masked fractional occupations)")
+    from .c05 import check_masked_occupations, check_rep_rows
+    check_rep_rows(ctx, "R6")
+    check_masked_occupations(ctx, "R6")
     check_arm_agreement(ctx, scf, "R5")
 
     # ------------------------------------------------------------------ R1
@@ -189,10 +193,12 @@ def run(ctx):
         if isinstance(e, ast.BinOp) and isinstance(e.op, ast.BitOr):
             a, b = mask_of(e.left), mask_of(e.right)
             return None if a is None or b is None else a | b
-        if isinstance(e, ast.Compare) and len(e.ops) == 1 and isinstance(e.ops[0], ast.Gt):
-            fct = thresh(e.comparators[0])
+        if isinstance(e, ast.Compare) and len(e.ops) == 1 and isinstance(e.ops[0], (ast.Gt, ast.Lt)):
+            # `X > c*eps` or, mirrored, `c*eps < X`
+            lhs, rhs = (e.left, e.comparators[0]) if isinstance(e.ops[0], ast.Gt) else (e.comparators[0], e.left)
+            fct = thresh(rhs)
             if fct is not None:
-                key = norm(e.left)
+                key = norm(lhs)
                 crit[key] = fct
                 return {key}
         return None
